@@ -578,6 +578,25 @@ func DrawLayout(rng *rand.Rand, nConv int, opts LayoutOpts) *LSpec {
 			first[p] = c
 		}
 	}
+	// a variables block written elsewhere may have landed on a file that other converters
+	// select with a different package text: move it to a file of its own
+	for guard := 0; hasPathConflict(s) && guard < 8; guard++ {
+		ids := map[string]string{}
+		for i := range s.Convs {
+			c := &s.Convs[i]
+			p := s.Predict(c)
+			if id, ok := ids[p.Path]; ok && id != p.PkgID {
+				c.OutFile = "@cwd/uniq-" + strings.ToLower(c.Name) + "/z.go"
+				if c.Kind == "variables" {
+					c.OutPkg = importPath("uniq-" + strings.ToLower(c.Name))
+				} else {
+					c.OutPkg = ""
+				}
+				break
+			}
+			ids[p.Path] = p.PkgID
+		}
+	}
 	// some target directories hold a user package already
 	if opts.UserPkgs {
 		for i := range s.Convs {
